@@ -794,7 +794,11 @@ where
                         entry.is_admitted() as u64,
                     );
                     freq.increment(hash);
-                    entry.set_last_accessed(timestamp);
+                    // A recorded read can be applied after a later update of the same
+                    // entry. Never move the last accessed time backwards.
+                    if entry.last_accessed().map_or(true, |la| la < timestamp) {
+                        entry.set_last_accessed(timestamp);
+                    }
                     if entry.is_admitted() {
                         deqs.move_to_back_ao(&entry);
                     }
